@@ -28,9 +28,9 @@ WATCHDOG_S = {"quick": 900, "thorough": 5400}
 
 
 def plan(tier, seed):
-    n = 208 if tier == "quick" else 4000
-    per = 13 if tier == "quick" else 125
-    nops = 10 if tier == "quick" else 30
+    n = 416 if tier == "quick" else 4000
+    per = 26 if tier == "quick" else 125
+    nops = 12 if tier == "quick" else 30
     return [{"lo": lo, "hi": min(n, lo + per), "nops": nops} for lo in range(0, n, per)]
 
 
